@@ -39,9 +39,10 @@ SPEC = {
                   "set must equal the real one. Stream seq: the real ValidationReport::process, cache before/after "
                   "(oracle only: dirty / failed run remove nothing). Expiry is produced by rewriting the cached "
                   "notAfter field of a real stored point (what retain reads) and, in two cases, by real time passing "
-                  "(certificates valid for 4 s). PARTIAL: the RRDP collector's cleanup (archives) is proved on the "
-                  "model but not exercised (the generator has no RRDP transport); RRDP-tree stored points are "
-                  "exercised (a stored point moved there); pruning of empty directories, non-UTF-8 names and I/O "
+                  "(certificates valid for 4 s). The RRDP collector's cleanup is exercised on archives made by the real "
+                  "writer and planted in the collector's directory (current and past their best-before time, named / not "
+                  "named by a stored point in the RRDP tree, transport on / off, dirty); no generated CA announces RRDP, so "
+                  "archives the run itself updated do not occur (ri_upd_rrdp is empty in every case); pruning of empty directories, non-UTF-8 names and I/O "
                   "errors are not modelled.",
     "rule": "world: 2 TALs, 7 publication points over 5 rsync modules on 4 hosts, one CA whose manifest never "
             "validates (LastAttempt marker), a CA that moves to another repository in version 1 of its parent; classes: "
